@@ -232,7 +232,14 @@ func ruleC03_2(c *Ctx) {
 			}
 			k, _ := constString(mu.Key)
 			if w, ok := wantFields[k]; ok {
-				c.check(org(mu.Value) == w, R, fn, "rule data field "+k, mu.Pos(), w, "field "+k+" is "+org(mu.Value))
+				detail := "field " + k + " is " + org(mu.Value) + ", expected " + w + " (the word of the rule as written)"
+				if derives(mu.Value, func(v ssa.Value) bool {
+					k2, ok := v.(*ssa.Call)
+					return ok && (calleeName(k2) == "strings.ToLower" || calleeName(k2) == "strings.ToUpper")
+				}, true) {
+					detail += ": it is taken from the case-folded copy of the rule, which exists for comparing the keywords only - patterns and prefixes are case-sensitive"
+				}
+				c.check(org(mu.Value) == w, R, fn, "rule data field "+k, mu.Pos(), w, detail)
 			}
 			if ph, ok := phis[k]; ok {
 				c.check(mu.Value == ssa.Value(ph), R, fn, "rule data field "+k, mu.Pos(), "the extracted "+k, "field "+k+" is "+org(mu.Value))
